@@ -35,8 +35,9 @@ func (w *world) checkSeq(ob *vh.ObservedBlock, i int, o *op, res *abci.ExecTxRes
 		involved = append(involved, cl, ow, to, s.Call.A1, s.Call.A2)
 	}
 	var exp *state
+	shape := ""
 	witness := func(extra map[string]any) map[string]any {
-		m := map[string]any{"world": w.label, "height": ob.Height, "index": i, "op": o.String(), "tx_to": o.Tx.To().Hex(), "tx_data": hexs(o.Tx.Data()),
+		m := map[string]any{"world": w.label, "height": ob.Height, "index": i, "op": o.String(), "shape": shape, "tx_to": o.Tx.To().Hex(), "tx_data": hexs(o.Tx.Data()),
 			"precompiles": map[string]string{denoms[0]: w.tok[0].Hex(), denoms[1]: w.tok[1].Hex()}, "sender": sender.Hex(), "gas_limit": gasLimit,
 			"effective_price": price.String(), "code": res.Code, "log": res.Log, "write_set": vh.ChangeStrings(diff)}
 		for k, s := range o.Seq {
@@ -192,12 +193,17 @@ func (w *world) checkSeq(ob *vh.ObservedBlock, i int, o *op, res *abci.ExecTxRes
 		}
 	}
 	desc := strings.Join(descs, ",")
+	shape = desc
 	if !txOK {
 		desc += ":tx-reverted"
 		exp = base.clone()
 		wantLogs = nil
 		took = nil
 		run.Count("failing_calls_checked_for_no_effect", 1)
+	}
+	rev := ""
+	if !txOK {
+		rev = ":tx-reverted"
 	}
 	run.Count("sequence_txs", 1)
 	run.Distinct("sequence_shapes", desc)
@@ -215,15 +221,15 @@ func (w *world) checkSeq(ob *vh.ObservedBlock, i int, o *op, res *abci.ExecTxRes
 		}
 	}
 	if len(mism) > 0 {
-		run.Violation("sequence:balance-mismatch:"+desc, w.label, witness(map[string]any{"mismatches": mism}))
+		run.Violation("sequence:balance-mismatch"+rev, w.label, witness(map[string]any{"mismatches": mism}))
 	}
 	for d := range denoms {
 		if !same(exp.Supply[d], post.Supply[d]) {
-			run.Violation("sequence:supply-mismatch:"+desc, w.label, witness(map[string]any{"denom_checked": denoms[d], "model_supply": exp.Supply[d].String(), "observed_supply": post.Supply[d].String()}))
+			run.Violation("sequence:supply-mismatch"+rev, w.label, witness(map[string]any{"denom_checked": denoms[d], "model_supply": exp.Supply[d].String(), "observed_supply": post.Supply[d].String()}))
 		}
 	}
 	if !ob.PostIsEndBlock[i] {
-		w.scanWrites(diff, "sequence:"+desc, witness)
+		w.scanWrites(diff, "sequence"+rev, witness)
 	}
 	keys := map[akey]bool{}
 	for k := range exp.Allow {
@@ -237,7 +243,7 @@ func (w *world) checkSeq(ob *vh.ObservedBlock, i int, o *op, res *abci.ExecTxRes
 		if same(e, p) || selfKeys[k] {
 			continue
 		}
-		run.Violation("sequence:allowance-mismatch:"+desc, w.label, witness(map[string]any{"owner": k.Owner.Hex(), "spender": k.Spender.Hex(),
+		run.Violation("sequence:allowance-mismatch"+rev, w.label, witness(map[string]any{"owner": k.Owner.Hex(), "spender": k.Spender.Hex(),
 			"pre": pre.allowance(k.Owner, k.Spender).String(), "model": e.String(), "observed": p.String()}))
 	}
 	var got []*ethtypes.Log
@@ -247,17 +253,17 @@ func (w *world) checkSeq(ob *vh.ObservedBlock, i int, o *op, res *abci.ExecTxRes
 		}
 	}
 	if !txOK && len(rc.Logs) != 0 {
-		run.Violation("sequence:log-after-reverted-tx:"+desc, w.label, witness(nil))
+		run.Violation("sequence:log-after-reverted-tx"+rev, w.label, witness(nil))
 	}
 	if len(got) != len(wantLogs) {
-		run.Violation("sequence:transfer-log-count:"+desc, w.label, witness(map[string]any{"transfer_logs": len(got), "model_transfer_logs": len(wantLogs)}))
+		run.Violation("sequence:transfer-log-count"+rev, w.label, witness(map[string]any{"transfer_logs": len(got), "model_transfer_logs": len(wantLogs)}))
 	} else {
 		for k, l := range got {
 			wl := wantLogs[k]
 			run.Count("transfer_logs_checked", 1)
 			if l.Address != w.tok[wl.Tok] || len(l.Topics) != 3 || l.Topics[1] != common.BytesToHash(wl.L.From.Bytes()) ||
 				l.Topics[2] != common.BytesToHash(wl.L.To.Bytes()) || !bytes.Equal(l.Data, common.LeftPadBytes(wl.L.Amount.Bytes(), 32)) {
-				run.Violation("sequence:transfer-log-mismatch:"+desc, w.label, witness(map[string]any{"log_index": k,
+				run.Violation("sequence:transfer-log-mismatch"+rev, w.label, witness(map[string]any{"log_index": k,
 					"model_log": map[string]string{"emitter": w.tok[wl.Tok].Hex(), "from": wl.L.From.Hex(), "to": wl.L.To.Hex(), "value": wl.L.Amount.String()}}))
 			}
 		}
